@@ -98,4 +98,18 @@ PROPS = {
         "trusted_base": ["divisibility oracle = executable single-divisor division with multiply-back (sound by theorem; its completeness is not proved)"],
         "assumptions": ["documented domain: divisor non-zero, main variable of the divisor not above that of the dividend, exact variants only on exactly divisible inputs"],
     },
+    "C18": {
+        "level": "proof",
+        "lean_targets": ["LP.Props.C18"],
+        "harnesses": [{"name": "h_order", "quick": 6000, "thorough": 100000}],
+        "select": lambda t: t[1] in ("ord", "poly"),
+        "nontrivial": lambda t, r: t[1] == "ord" and (t[2] != "check" or t[3] != t[4]),
+        "rule": "histories on a private context: random permutation of 4 variables as the order (sometimes with variables left out), then "
+                "4-12 steps of push/pop/reverse/clear+re-push interleaved with arithmetic on external and non-external polynomials, "
+                "explicit re-ordering, equality/hash/cmp against an equal polynomial rebuilt along another route under the current order, "
+                "and in-place modification after the hash was taken. Non-trivial = an ord observation made after the order changed, or "
+                "any equality/keep observation; distinct = distinct line.",
+        "trusted_base": ["the layout of an object is modelled by the order in force when it was last (re)ordered (tracked by the harness)"],
+        "assumptions": [],
+    },
 }
